@@ -93,6 +93,23 @@ static Task<int> LazyCoro(Future<int> f) {               // coroutine Task: noth
   After(0, x, 0);
   co_return x + 4;
 }
+static Future<int> OnAgainStopped(IExecutor& e) {        // the executor is stopped while the coroutine runs on it: the next On(e) must end it with StopError
+  Tracker t;
+  co_await On(e);
+  After(1, 0, 9);
+  g_a.stopped = true;
+  co_await On(e);
+  After(0, 0, 9);
+  co_return 1;
+}
+static Future<int> InheritThenOn(FutureOn<int> f) {       // resumed inline by a foreign thread after awaiting a future bound to b: On(b) must still move it onto b
+  Tracker t;
+  int x = co_await std::move(f);
+  After(1, x, 9);
+  co_await On(g_b);
+  After(0, x, 9);
+  co_return x;
+}
 static Future<int> Thrower() { Tracker t; After(0, 0, 9); throw 77; co_return 0; }
 static Future<int> YieldTwice(IExecutor& e) { Tracker t; co_await On(e); co_await kYield; After(0, 0, 9); auto& cur = co_await CurrentExecutor(); co_return &cur == &e ? 5 : -5; }
 
@@ -161,6 +178,26 @@ extern "C" void c13_epilogue_shared() {
   SF.~SharedFuture();
   Quiescent();
   vp_reach("c13 shared end");
+}
+extern "C" void c13_on_stopped(unsigned deferred) {   // sequential: On(e) after e was stopped underneath the coroutine
+  g_a.id = 1; g_b.id = 2; g_a.deferred = g_b.deferred = deferred != 0;
+  OnAgainStopped(g_a).DetachInline(Final{0});
+  g_a.Drain(); g_a.Drain();
+  vp_assert(g_after[1] == 1 && g_after[0] == 0, "C13 On(e) on an executor that was stopped meanwhile must not let the coroutine continue");
+  vp_assert(g_final_n[0] == 1 && g_final_state[0] == (unsigned)ResultState::Error, "C13 On(e) on a stopped executor must complete the coroutine with StopError");
+  Quiescent();
+  vp_reach("c13 on stopped");
+}
+extern "C" void c13_on_inherit(unsigned deferred) {   // sequential: On(b) after inheriting b from an awaited FutureOn fulfilled by a foreign thread
+  g_a.id = 1; g_b.id = 2; g_a.deferred = g_b.deferred = deferred != 0;
+  auto [f, p] = MakeContractOn<int>(g_b);
+  InheritThenOn(std::move(f)).DetachInline(Final{1});
+  std::move(p).Set(7);                   // fulfilled by a thread that is not b
+  g_b.Drain(); g_b.Drain();
+  vp_assert(g_after[1] == 1 && g_after[0] == 1 && g_where[0] == 2, "C13 after co_await On(b) the coroutine must run inside b (also when it already inherited b as its executor)");
+  vp_assert(g_final_n[1] == 1 && g_final[1] == 7, "C13 On inherit: result");
+  Quiescent();
+  vp_reach("c13 on inherit");
 }
 extern "C" void c13_misc() {   // sequential: escaping exception, Yield, CurrentExecutor
   g_a.id = 1;
